@@ -68,7 +68,7 @@ func (g *tgen) condWriteOp(rt *rapid.T, db *model.DB, allowRetOnFail bool) model
 	return normOp(op)
 }
 
-const ruleC05 = "rapid: generated schema (0-2 indexes), table populated with 0-6 items through a write history, then conditional PutItem / UpdateItem / DeleteItem on pool keys whose condition (existence guards on the key, comparisons, functions, compounds) is generated over the target's stored item or over another stored item, twins of earlier conditions that differ only in the letter case of one attribute name or placeholder, and earlier requests repeated with values of the same shape and other contents; both SDK clients against the reference model: the write is applied iff the model evaluates the condition true on the target's own stored item (empty item if none); on refusal the error class is ConditionalCheckFailed, the complete internal snapshot (table, every index) is unchanged, and (v2 UpdateItem, when requested) the carried item equals the stored item; after every step full scans of table and indexes are compared. Non-trivial = conditional write for which some other stored item evaluates the condition differently from the target; distinct = hash of (table contents, request)."
+const ruleC05 = "rapid: generated schema (0-2 indexes), table populated with 0-6 items through a write history, then conditional PutItem / UpdateItem / DeleteItem on pool keys whose condition (existence guards on the key, comparisons, functions, compounds) is generated over the target's stored item or over another stored item, twins of earlier conditions that differ only in the letter case of one attribute name or placeholder, earlier requests repeated with values of the same shape and other contents, and updates of other items that are rejected while being evaluated; both SDK clients against the reference model: the write is applied iff the model evaluates the condition true on the target's own stored item (empty item if none); on refusal the error class is ConditionalCheckFailed, the complete internal snapshot (table, every index) is unchanged, and (v2 UpdateItem, when requested) the carried item equals the stored item; after every step full scans of table and indexes are compared. Non-trivial = conditional write for which some other stored item evaluates the condition differently from the target; distinct = hash of (table contents, request)."
 
 // TestC05 decides property C05.
 func TestC05(t *testing.T) {
@@ -83,6 +83,7 @@ func TestC05(t *testing.T) {
 		g.maxAttrs = 3
 		// attribute names that differ only in letter case are different attributes
 		g.attrNames = append(append([]string{}, gen.AttrNames...), "A", "B", "Flag")
+		g.failClasses = []string{"ill-typed-update", "last-action-fails"}
 		var lastCond *model.Op
 		fail := func(f *failure) {
 			if f != nil {
@@ -171,6 +172,18 @@ func TestC05(t *testing.T) {
 				st.Class("case-twin-of-an-earlier-condition")
 				condWrite(rt, normOp(op))
 			},
+			"rejectedUpdate": func(rt *rapid.T) {
+				// an update that is rejected while it is being evaluated, on some item:
+				// the conditional writes that follow are decided on their own targets
+				if rapid.IntRange(0, 5).Draw(rt, "reallyRejected") != 3 {
+					return
+				}
+				op, _ := g.failingOp(rt, w.m)
+				op.TrySpec = true
+				_, _, f := w.do(op)
+				fail(f)
+				st.Class("update-rejected-during-evaluation")
+			},
 			"valueTwin": func(rt *rapid.T) {
 				// an earlier condition again - same text, same placeholder names -
 				// with values of the same shape (same map field names, list
@@ -239,7 +252,7 @@ func (g *tgen) failingOp(rt *rapid.T, db *model.DB) (model.Op, string) {
 	if classes == nil {
 		classes = []string{"missing-key-attr", "wrong-typed-key", "unknown-table", "unused-placeholder", "malformed-placeholder",
 			"failed-condition", "malformed-expression", "ill-typed-update", "last-action-fails", "index-key-type-put", "index-key-type-update",
-			"batch-unknown-table", "batch-bad-key", "batch-index-key-type", "key-attr-update", "oversized-index-key", "malformed-update"}
+			"batch-unknown-table", "batch-bad-key", "batch-index-key-type", "key-attr-update", "oversized-index-key", "malformed-update", "invalid-return-values"}
 	}
 	class := rapid.SampledFrom(classes).Draw(rt, "failClass")
 	key := g.key(rt)
@@ -397,6 +410,17 @@ func (g *tgen) failingOp(rt *rapid.T, db *model.DB) (model.Op, string) {
 		pos := rapid.IntRange(0, len(reqs)).Draw(rt, "badPos")
 		reqs = append(reqs[:pos:pos], append([]model.WriteReq{bad}, reqs[pos:]...)...)
 		return model.Op{Kind: "BatchWrite", Batch: []model.TableBatch{{Table: g.s.Table, Reqs: reqs}}}, class
+	case "invalid-return-values":
+		// a ReturnValues value DynamoDB does not allow for the operation
+		switch rapid.IntRange(0, 2).Draw(rt, "invalidRVOp") {
+		case 0:
+			return model.Op{Kind: "Delete", Table: g.s.Table, Key: key, ReturnValues: rapid.SampledFrom([]string{"UPDATED_OLD", "ALL_NEW", "UPDATED_NEW"}).Draw(rt, "rv")}, class
+		case 1:
+			return model.Op{Kind: "Put", Table: g.s.Table, Item: g.item(rt), ReturnValues: rapid.SampledFrom([]string{"UPDATED_OLD", "ALL_NEW", "UPDATED_NEW"}).Draw(rt, "rv")}, class
+		}
+		op := simpleUpdate(key)
+		op.ReturnValues = "SOME"
+		return op, class
 	case "malformed-update":
 		// an update expression that is not a sentence of the grammar, without a
 		// condition (so that no other defect of the request competes with it)
@@ -492,7 +516,7 @@ func mergeUpdates(a, b model.Update) model.Update {
 	return out
 }
 
-const ruleC08 = "rapid state machine: C01/C03-style write history on a table with 0-3 indexes, in which about half of the steps are requests built to fail, one generator per error class (missing / wrongly typed key attribute, unknown table, unused or malformed placeholder, failed condition, token-mutated expression, ill-typed update, multi-action update whose last action fails, index-key type mismatch on Put and Update, index key values at and above DynamoDB's size limits, failing sub-request inside a batch (malformed key, index-key type mismatch), update of a key attribute, malformed update text, any request under emulated failure), plus UpdateTable index creation on the populated table (on attributes that stored items hold with another type; re-declaring the type of an index key attribute); for every request that the implementation rejects (error or documented panic) the complete internal snapshot of every table and index and the full observable state are compared before and after on both SDK clients. Once a request that the reference model expects to fail is accepted by the implementation (whether it must fail is decided by C09/C13/C16, not here) the model can no longer follow the state: the rest of the history is sent without model, and only the no-trace comparison of the internal snapshots around every failing request continues. Non-trivial = a failing request executed against a non-empty table that has at least one index; distinct = hash of the operation list."
+const ruleC08 = "rapid state machine: C01/C03-style write history on a table with 0-3 indexes, in which about half of the steps are requests built to fail, one generator per error class (missing / wrongly typed key attribute, unknown table, unused or malformed placeholder, failed condition, token-mutated expression, ill-typed update, multi-action update whose last action fails, index-key type mismatch on Put and Update, index key values at and above DynamoDB's size limits, failing sub-request inside a batch (malformed key, index-key type mismatch), update of a key attribute, malformed update text, ReturnValues values the operation does not allow, any request under emulated failure), plus UpdateTable index creation on the populated table (on attributes that stored items hold with another type; re-declaring the type of an index key attribute) and index deletion, also immediately followed by the creation of another index; for every request that the implementation rejects (error or documented panic) the complete internal snapshot of every table and index and the full observable state are compared before and after on both SDK clients. Once a request that the reference model expects to fail is accepted by the implementation (whether it must fail is decided by C09/C13/C16, not here) the model can no longer follow the state: the rest of the history is sent without model, and only the no-trace comparison of the internal snapshots around every failing request continues. Non-trivial = a failing request executed against a non-empty table that has at least one index; distinct = hash of the operation list."
 
 // TestC08 decides property C08.
 func TestC08(t *testing.T) {
@@ -576,6 +600,34 @@ func TestC08(t *testing.T) {
 					st.Class("index-added-to-populated-table")
 				}
 				g.adoptLateIndex(rt, w.m, op)
+			},
+			"delIndex": func(rt *rapid.T) {
+				// an index deleted (and possibly another one created right after,
+				// with no write in between)
+				t := w.m.Tables[s.Table]
+				var globals []model.IndexSchema
+				for _, ix := range t.Schema.Indexes {
+					if ix.Global {
+						globals = append(globals, ix)
+					}
+				}
+				if len(globals) == 0 || rapid.IntRange(0, 3).Draw(rt, "reallyDelIndex") != 2 {
+					return
+				}
+				ix := rapid.SampledFrom(globals).Draw(rt, "delIx")
+				if exec(model.Op{Kind: "DeleteIndex", Table: s.Table, Index: ix.Name}) == stepDone {
+					st.Class("index-deleted")
+					if t2 := w.m.Tables[s.Table]; t2 != nil {
+						g.s = t2.Schema
+					}
+				}
+				if lateIdx < 3 && rapid.Bool().Draw(rt, "replaceIndex") {
+					if op, ok := g.lateIndexOp(rt, w.m, lateIdx+1); ok {
+						lateIdx++
+						exec(op)
+						g.adoptLateIndex(rt, w.m, op)
+					}
+				}
 			},
 			"underFailure": func(rt *rapid.T) {
 				// all draws first: an action abandoned by rapid in the middle
